@@ -107,8 +107,6 @@ theorem padTo_one (off : Nat) : padTo 1 off = 0 := by
 
 /-! ### encoded field lists -/
 
-/-- offset (from the start of the radiotap header) right after the fields `fs` laid out from `off` -/
-def encEnd (M : Meta) (fs : List (Nat × Bytes)) (off : Nat) : Nat := off + (enc M fs off).length
 
 theorem zeros_length (n : Nat) : (zeros n).length = n := by simp [zeros]
 
